@@ -397,6 +397,31 @@ def _mk_choice_cons(**s):
     return ("n", None)
 
 
+# two different untagged CHOICE members next to each other in one OPTIONAL run; SEQUENCE OF explicitly tagged strings
+CH_A = T("CHOICE", comps=[("n", UTF8.tagged(("I", "C", 0)), "req", None), ("k", INT.tagged(("I", "C", 1)), "req", None)], name="CHOICE{n [0]I UTF8,k [1]I INT}")
+CH_B = T("CHOICE", comps=[("code", INT.tagged(("I", "C", 3)), "req", None), ("txt", OCTS.tagged(("I", "C", 4)), "req", None)], name="CHOICE{code [3]I INT,txt [4]I OCTS}")
+SEQ_2CH = T("SEQ", comps=[("id", INT, "req", None), ("name", CH_A, "opt", None), ("address", CH_B, "opt", None), ("active", BOOL, "def", False)],
+            name="SEQ{id INT,name CHOICE_A?,address CHOICE_B?,active BOOL=F}")
+
+
+def _mk_seq_2ch(**s):
+    av = {"id": s["i0"]}
+    if s["hb"]:
+        av["name"] = ("n", utf8_of([s["c0"]])) if s["f0"] else ("k", s["i1"])
+    if s["hc"]:
+        av["address"] = ("code", s["i1"]) if s["w"] == 0 else ("txt", bytes([s["o0"]]))
+    if s["hd"]:
+        av["active"] = True
+    return av
+
+
+SEQOF_OCTS_E = T("SEQOF", elem=OCTS.tagged(("E", "C", 0)), name="SEQOF [0]E OCTS")
+
+
+def _mk_seqof_octs_e(**s):
+    return [bytes([s["o0"], s["o1"]][: s["n"]]), bytes([s["o2"]]), bytes([s["o0"]])][: s["k"]]
+
+
 # OPTIONAL constructed members: "absent" and "present but empty" are different abstract values
 SEQ_OPTC = T("SEQ", comps=[("a", INT, "req", None),
                            ("i", T("SEQ", comps=[("x", INT, "opt", None)]), "opt", None),
@@ -440,6 +465,10 @@ def constructed():
     C.append(Entry("seq_hitags", SEQ_HITAGS, P_SEQ_HITAGS, _mk_seq_hitags, ["constructed", "record", "tagged_members"], shard=("hb", "he")))
     C.append(Entry("seq_hitags.E", SEQ_HITAGS_E, {"i0": SMALL, "i1": I(0, 1), "hc": B, "o0": BYTE, "n": I(0, 1)}, _mk_seq_hitags_e,
                    ["constructed", "record", "tagged_members", "has_explicit"]))
+    C.append(Entry("seq_2ch", SEQ_2CH, {"i0": SMALL, "i1": I(0, 1), "hb": B, "f0": B, "c0": I(0, 0x7FF), "hc": B, "w": I(0, 1), "o0": BYTE, "hd": B}, _mk_seq_2ch,
+                   ["constructed", "record", "choice"], shard=("hb", "hc")))
+    C.append(Entry("seqof_octs.E", SEQOF_OCTS_E, {"k": I(0, 3), "n": I(0, 2), "o0": BYTE, "o1": BYTE, "o2": BYTE}, _mk_seqof_octs_e,
+                   ["constructed", "list", "has_explicit", "univ"], shard=("k",)))
     C.append(Entry("choice_cons", CH_CONS, {"w": I(0, 3), "i0": SMALL, "k": I(0, 2), "o0": BYTE}, _mk_choice_cons, ["constructed", "choice"], shard=("w",)))
     C.append(Entry("seqof_choice_cons", T("SEQOF", elem=CH_CONS), {"w": I(0, 3), "i0": SMALL, "k": I(0, 2), "o0": BYTE, "k2": I(0, 2)},
                    lambda **s: [_mk_choice_cons(**s), ("l", [])][: s["k2"]], ["constructed", "list", "nested", "choice"], shard=("w",)))
